@@ -57,6 +57,7 @@ class Ctx:
         self.sets = {}
         self.timed_out = False
         self._alarm_installed = False
+        self._t_start = time.time()
 
     def rng(self, *salt) -> random.Random:
         return random.Random(h64([self.pid, self.seed, self.shard, list(salt)]))
@@ -78,6 +79,17 @@ class Ctx:
     def sample(self, case, limit=4):
         if len(self.samples) < limit:
             self.samples.append(case)
+
+    def over_budget(self) -> bool:
+        """True once this shard has used its share of wall-clock time (VERIF_SHARD_BUDGET_S; default 600 s quick, 2400 s
+        thorough): the outer workload loops of the sympy-heavy checks stop generating new domains then, so that one
+        shard with slow-to-print conditions cannot run into the watchdog (= inconclusive).  Coverage shrinks, verdicts
+        do not change; the stop is counted."""
+        budget = float(os.environ.get("VERIF_SHARD_BUDGET_S", "600" if self.tier == "quick" else "2400"))
+        if time.time() - self._t_start > budget:
+            self.count("stopped_on_shard_time_budget")
+            return True
+        return False
 
     def _on_alarm(self, signum, frame):
         # one case ran for CASE_LIMIT_S: the library's printing goes through a symbolic simplifier whose running time
